@@ -181,3 +181,21 @@ def dispatch_iterations(ctx, cfg='A'):
         ctx.paths += len(its)
         return g, its, 'loop'
     return None, [], None
+
+
+def frame_component(P, t):
+    """which part of a fetched frame a projection denotes: ('time'|'event', frame tree) or None.  The frame is the (event, time)
+    tuple fetch_next returns, or a private two-field record with exactly one SimTime field (`Scheduled { event, time }`)"""
+    t = peel(t)
+    if t[0] != 'field':
+        return None
+    if t[2] in ('0', '1') and (len(t) < 4 or not str(t[3]).startswith('des')):
+        return ('time' if t[2] == '1' else 'event', peel(t[1]))
+    adt = P.adts.get(strip_generics(t[3])) if len(t) > 3 and t[3] else None
+    if adt is None or len(adt.get('variants', [])) != 1:
+        return None
+    fs = adt['variants'][0]['fields']
+    times = [x for x in fs if x['ty'] == 'des::time::SimTime']
+    if len(fs) != 2 or len(times) != 1:
+        return None
+    return ('time' if t[2] == times[0]['n'] else 'event', peel(t[1]))
